@@ -290,6 +290,24 @@ func (fr *frame) autoAppendOnly(li *loopInfo, entryVal func(*ssa.Phi) *Val, st, 
 		u.assume(reach, fmt.Sprintf("(and (>= (s-len %s) (s-len %s)) (forall ((%s Int)) (=> (and (<= 0 %s) (< %s (s-len %s))) (= (select (select %s (s-arr %s)) (+ (s-off %s) %s)) (select (select %s (s-arr %s)) (+ (s-off %s) %s))))))",
 			hv.t, ev.t, j, j, j, ev.t, h1, hv.t, hv.t, j, h0, ev.t, ev.t, j))
 		u.abstract("auto-invariant:append-only")
+		// ... and, when it is the only such accumulator of its element type in the loop, nothing that existed on entry has
+		// changed except the free capacity behind the accumulator: an append writes behind the length of the slice it
+		// extends, or into a new array.
+		others := 0
+		for _, in2 := range h.Instrs {
+			p2, isPhi := in2.(*ssa.Phi)
+			if !isPhi {
+				break
+			}
+			if sl2, isSl := p2.Type().Underlying().(*types.Slice); isSl && p2 != p && types.Identical(sl2.Elem(), sl.Elem()) {
+				others++
+			}
+		}
+		if others == 0 {
+			a, i := u.fresh("a"), u.fresh("i")
+			u.assume(reach, fmt.Sprintf("(forall ((%s Int) (%s Int)) (=> (and (< %s %s) (or (not (= %s (s-arr %s))) (< %s (+ (s-off %s) (s-len %s))))) (= (select (select %s %s) %s) (select (select %s %s) %s))))",
+				a, i, a, st.alloc, a, ev.t, i, ev.t, ev.t, h1, a, i, h0, a, i))
+		}
 	}
 }
 
